@@ -675,7 +675,15 @@ def _fn_of_canon(fname, p, ctx, power=1):
             pos = ff[0][:-1] + (1,)
             inner = _fn_of_canon("sqrt", {((pos,), 0): Fraction(1)}, ctx, 1)
             return _inv_poly(poly_to_expr_raw(inner), ctx, power) if power > 0 else raw(powr(poly_to_expr_raw(inner), -power), ctx)
-        if nb == 0 and all(x[0] in ("A", "N", "F") and x[-1] % 2 == 0 for x in ff) and _is_square(cc):
+        if nb == 0 and cc > 0 and len(ff) >= 2 and all(x[0] in ("A", "N", "F") and isinstance(x[-1], int) and x[-1] < 0 for x in ff):
+            # sqrt(1/(f g ...)) = 1/sqrt(f g ...): the radicand of a defined square root is positive, so is its reciprocal
+            posf = tuple(x[:-1] + (-x[-1],) for x in ff)
+            inner = _fn_of_canon("sqrt", {(posf, 0): Fraction(1) / cc}, ctx, 1)
+            return _inv_poly(poly_to_expr_raw(inner), ctx, power) if power > 0 else raw(powr(poly_to_expr_raw(inner), -power), ctx)
+        if nb == 0 and all(x[0] in ("A", "N", "F") and x[-1] % 2 == 0 for x in ff) and _is_square(cc) \
+                and all(x[0] == "N" or (x[0] == "A" and x[1] in getattr(ctx, "positive", ())) or
+                        (x[0] == "F" and x[1] in ("exp", "sqrt", "cosh", "phi", "Phi")) for x in ff):
+            # sqrt(f^2) = f only for factors known to be positive (declared positive atoms, sizes, positive functions)
             half = tuple((x[:-1] + (x[-1] // 2,)) for x in ff)
             out = {(half, frozenset()): _frac_sqrt(cc)}
             if power != 1:
@@ -741,7 +749,9 @@ def _inv_poly(e, ctx, n):
             break
     if sfac is not None:
         without = {k: c for k, c in p.items() if sfac not in k[0]}
-        if without and len(without) < len(p):
+        # only when P(0) is a non-zero constant (e.g. 1 + h*s): then the unused branch (1-s)/P(0) is defined everywhere
+        c0_ = _is_const_poly(without) if without else None
+        if without and len(without) < len(p) and c0_ is not None and c0_ != 0:
             stripped = dict(without)
             for (f, nb), c in p.items():
                 if sfac in f:
